@@ -333,7 +333,7 @@ def run_one(ch):
                     res.stats["upload_with_limit_zero"] += 1
             if via_proto:
                 res.stats["via_protocol"] += 1
-                if deadline_case:
+                if deadline_case and not _VP.pop("stalled_thread", False):
                     res.stats["request_arrives_as_the_timer_is_due"] += 1
             res.stats["requests"] += 1
             sigs.append((pclass, bool(permitted), fdesc and fdesc.split("-after-")[0],
@@ -384,6 +384,12 @@ def _via_protocol(ch, handler, line, content):
         else:
             script = [("send", head), ("send", extra or b"X"), ("close",)]
 
+    # should the handler ever move its storage calls into a worker thread: that thread stalls
+    # for longer than any timeout around it (the pinned tree has no such thread: no effect)
+    slow_thread = ch.chance("vpslowthread", 0.1)
+    if slow_thread:
+        sim.loop.executor_delay = 45.0
+
     async def main():
         def h(req):
             raise RuntimeError("gemini handler must not be used")
@@ -395,17 +401,20 @@ def _via_protocol(ch, handler, line, content):
             await asyncio.sleep(0.1)
             if peer.eof_seen() and (peer.finished or not _VP["left"]):
                 break
-        await asyncio.sleep(1.0)
+        await asyncio.sleep(60.0 if slow_thread else 1.0)
         peer.drain_final()
         out["rx"] = bytes(peer.rx_plain)
         server.close()
-    status = sim.run(main(), horizon=120.0)
+    status = sim.run(main(), horizon=200.0)
     if sim.error is not None:
         raise sim.error
     if status != "done":
         raise RuntimeError(f"C14 wire world ended with status {status}")
     if flight == 4:
         _VP["deadline"] = True
+    if net.stats.get("executor_job_stalled"):
+        _VP["deadline"] = True      # a stalled storage thread is a fault: 40 is a correct answer
+        _VP["stalled_thread"] = True
     if _VP["left"] and not out["rx"]:
         return None
     _VP["left"] = False
